@@ -762,6 +762,53 @@ func verifBagSemantics(a, b, c jsonArray, options []Option) bool {
 // verifBagEquals (C04): verifEquals over the same documents, at the root and under a key.
 func verifBagEquals(a, b JsonNode, options []Option) bool { return verifEquals(a, b, options) }
 
+// verifDupIdentity: some array in n holds two object members with the same identity under SetKeys
+// (the same value, or the same absence, for every set key).
+func verifDupIdentity(n JsonNode, options []Option) bool {
+	keys, ok := getOption[setKeysOption](options)
+	if !ok {
+		return false
+	}
+	switch v := n.(type) {
+	case jsonArray:
+		var members []jsonObject
+		for _, e := range v {
+			if verifDupIdentity(e, options) {
+				return true
+			}
+			o, isObj := e.(jsonObject)
+			if !isObj {
+				continue
+			}
+			for _, m := range members {
+				same := true
+				for _, k := range *keys {
+					x, hx := m[k]
+					y, hy := o[k]
+					if hx != hy || (hx && !specEq(x, y, options)) {
+						same = false
+					}
+				}
+				if same {
+					return true
+				}
+			}
+			members = append(members, o)
+		}
+	case jsonObject:
+		for _, e := range v {
+			if verifDupIdentity(e, options) {
+				return true
+			}
+		}
+	}
+	return false
+}
+
+// verifDiffAny (C05): "diff empty iff Equals" without any restriction of the documents (members that
+// lack the set keys, duplicate identities, nulls under MERGE).
+func verifDiffAny(a, b JsonNode, options []Option) Diff { return a.Diff(b, options...) }
+
 // verifKeyedDiff (C01, C05, C07): the round trip, "empty iff equal" and "only real differences"
 // over arrays of keyed objects (scalar, array- and object-valued keys, members without the key
 // shape, several members in any order).
